@@ -241,6 +241,20 @@ class Env:
         if v.size() != n0:
             self._changed = True
 
+    def _bind_enumerate(self, target, it):
+        """for i, t in enumerate(x): the index is a number the loop makes,
+        only t is an element of x."""
+        if isinstance(it, ast.Call) and isinstance(
+                it.func, ast.Name) and it.func.id == 'enumerate' and \
+                it.args and isinstance(target, ast.Tuple) and len(
+                target.elts) == 2 and isinstance(
+                target.elts[0], ast.Name) and \
+                'enumerate' not in self.locals:
+            self._add(target.elts[0].id, Val({CONST}))
+            self._bind(target.elts[1], self.elem(self.ev(it.args[0])))
+            return True
+        return False
+
     @staticmethod
     def elem(val):
         t = set(val.c1) | _down(val.tags)
@@ -298,7 +312,8 @@ class Env:
         if isinstance(e, (ast.ListComp, ast.SetComp, ast.GeneratorExp,
                           ast.DictComp)):
             for g in e.generators:
-                self._bind(g.target, self.elem(self.ev(g.iter)))
+                if not self._bind_enumerate(g.target, g.iter):
+                    self._bind(g.target, self.elem(self.ev(g.iter)))
             elts = [e.key, e.value] if isinstance(e, ast.DictComp) else [
                 e.elt]
             return self.contain([self.ev(x) for x in elts])
@@ -500,7 +515,8 @@ class Env:
                         el = self.elem(self.ev(n.value))
                         self._add(n.target.id, fresh(el.tags, el.deep))
                 elif isinstance(n, (ast.For, ast.AsyncFor)):
-                    self._bind(n.target, self.elem(self.ev(n.iter)))
+                    if not self._bind_enumerate(n.target, n.iter):
+                        self._bind(n.target, self.elem(self.ev(n.iter)))
                 elif isinstance(n, (ast.With, ast.AsyncWith)):
                     for item in n.items:
                         if item.optional_vars is not None:
